@@ -83,33 +83,86 @@ func checkC18(w *World, r *Report) {
 		if fi.Decl.Recv != nil && len(fi.Decl.Recv.List[0].Names) == 1 {
 			recv = info.Defs[fi.Decl.Recv.List[0].Names[0]]
 		}
-		var sw *ast.SwitchStmt
+		// the built-in dispatch: (type variable, body) pairs from a switch on X.Type or from an
+		// if / else-if chain comparing X.Type with the type variables
+		type arm struct {
+			e    ast.Expr
+			body []ast.Stmt
+			pos  token.Pos
+		}
+		var arms []arm
 		var guard *ast.IfStmt
+		var dispatchPos token.Pos
+		isReflectType := func(e ast.Expr) bool {
+			tv, ok := info.Types[e]
+			return ok && isNamedType(tv.Type, "reflect", "Type") && isFieldNamed(info, e, "Type")
+		}
 		ast.Inspect(fi.Decl.Body, func(x ast.Node) bool {
-			if ifs, ok := x.(*ast.IfStmt); ok {
-				for _, st := range ifs.Body.List {
-					if s, ok := st.(*ast.SwitchStmt); ok && s.Tag != nil && isFieldNamed(info, s.Tag, "Type") {
-						if tv, ok := info.Types[s.Tag]; ok && isNamedType(tv.Type, "reflect", "Type") {
-							sw, guard = s, ifs
+			ifs, ok := x.(*ast.IfStmt)
+			if !ok || guard != nil {
+				return true
+			}
+			for _, st := range ifs.Body.List {
+				switch s := st.(type) {
+				case *ast.SwitchStmt:
+					if s.Tag != nil && isReflectType(s.Tag) {
+						guard, dispatchPos = ifs, s.Pos()
+						for _, cl := range s.Body.List {
+							cc := cl.(*ast.CaseClause)
+							for _, e := range cc.List {
+								arms = append(arms, arm{e, cc.Body, cc.Pos()})
+							}
 						}
+					}
+				case *ast.IfStmt:
+					var chain []arm
+					cur := s
+					for cur != nil {
+						be, ok := unparen(cur.Cond).(*ast.BinaryExpr)
+						if !ok || be.Op != token.EQL {
+							chain = nil
+							break
+						}
+						var v ast.Expr
+						if isReflectType(be.X) {
+							v = be.Y
+						} else if isReflectType(be.Y) {
+							v = be.X
+						} else {
+							chain = nil
+							break
+						}
+						chain = append(chain, arm{v, cur.Body.List, cur.Pos()})
+						next, _ := cur.Else.(*ast.IfStmt)
+						if cur.Else != nil && next == nil {
+							chain = nil
+							break
+						}
+						cur = next
+					}
+					if len(chain) >= 2 {
+						guard, dispatchPos = ifs, s.Pos()
+						arms = chain
 					}
 				}
 			}
 			return true
 		})
-		if sw == nil {
-			r.Fail("R18.1", fi.Name()+"#builtin-switch", fi.Decl.Pos(), "resolution has no switch on the requested type that serves the built-in services")
+		if guard == nil {
+			r.Fail("R18.1", fi.Name()+"#builtin-switch", fi.Decl.Pos(), "resolution has no dispatch on the requested type that serves the built-in services")
 		} else {
 			want := map[string]string{"context.Context": "context", "godi.Provider": "rootProvider", "godi.Scope": "<receiver>"}
 			seen := map[string]bool{}
-			for _, cl := range sw.Body.List {
-				cc := cl.(*ast.CaseClause)
-				for _, e := range cc.List {
+			for _, am := range arms {
+				e := am.e
+				cc := struct{ Body []ast.Stmt }{am.body}
+				ccPos := am.pos
+				{
 					target := typeVarTarget(w, objOf(info, e))
 					con := fi.Name() + "#builtin:" + target
 					wantField, known := want[target]
 					if !known {
-						r.Fail("R18.1", con, cc.Pos(), "the built-in switch has a case for %s (%s), which is not one of the three reserved types", exprStr(e), target)
+						r.Fail("R18.1", con, ccPos, "the built-in dispatch has a case for %s (%s), which is not one of the three reserved types", exprStr(e), target)
 						continue
 					}
 					seen[target] = true
@@ -131,12 +184,12 @@ func checkC18(w *World, r *Report) {
 							}
 						}
 					}
-					r.Check(bad == "", "R18.1", con, cc.Pos(), true, target+" resolves to the resolving scope's own value", "built-in "+target+": "+bad)
+					r.Check(bad == "", "R18.1", con, ccPos, true, target+" resolves to the resolving scope's own value", "built-in "+target+": "+bad)
 				}
 			}
 			for t := range want {
 				if !seen[t] {
-					r.Fail("R18.1", fi.Name()+"#builtin:"+t, sw.Pos(), "the built-in switch has no case for %s", t)
+					r.Fail("R18.1", fi.Name()+"#builtin:"+t, dispatchPos, "the built-in dispatch has no case for %s", t)
 				}
 			}
 			// guard: key.Key == nil && key.Group == ""
@@ -190,16 +243,17 @@ func checkC18(w *World, r *Report) {
 		if n == 0 {
 			r.Fail("R18.2", fi.Name()+"#resolver", fi.Decl.Pos(), "createInstance never invokes a constructor")
 		}
-		ca := ro.createAll
-		cinfo := ca.Pkg.TypesInfo
 		m := 0
-		for _, c := range callsIn(ca.Decl.Body, true) {
-			if callee(cinfo, c) == ro.createInstance.Obj {
-				m++
-				rcv, _, _ := methodCall(c)
-				fv := fieldOf(cinfo, rcv)
-				r.Check(fv != nil && fv.Name() == "rootScope", "R18.2", fmt.Sprintf("%s#on-root-scope/%d", ca.Name(), m), c.Pos(), false,
-					"singletons are constructed on the provider's root scope", "singletons are constructed on "+exprStr(rcv)+", not on the provider's root scope")
+		for _, ca := range w.Within(ro.createAll, 3) {
+			cinfo := ca.Pkg.TypesInfo
+			for _, c := range callsIn(ca.Decl.Body, true) {
+				if callee(cinfo, c) == ro.createInstance.Obj {
+					m++
+					rcv, _, _ := methodCall(c)
+					fv := fieldOf(cinfo, rcv)
+					r.Check(fv != nil && fv.Name() == "rootScope", "R18.2", fmt.Sprintf("%s#on-root-scope/%d", ro.createAll.Name(), m), c.Pos(), false,
+						"singletons are constructed on the provider's root scope", "singletons are constructed on "+exprStr(rcv)+", not on the provider's root scope")
+				}
 			}
 		}
 	}
